@@ -99,6 +99,9 @@ func respCheck(prop string, o *Outcome) []Violation {
 			}
 			u := v.Up
 			res := r.Res
+			if u.Reply.Fault == "badenc" {
+				continue // the origin's own body is not a valid stream of the announced encoding
+			}
 			respProbes(o, v)
 			if v.EchoKey != r.Key || u.Key != r.Key {
 				out = append(out, violation(prop, "wrong-key", "response obtained for another key",
